@@ -20,7 +20,7 @@ CHECKS["C01"] = dict(
 )
 CHECKS["C14"] = dict(
     category="proof",
-    text="BIP-32 derivation (master key, CKDpriv/CKDpub, neuter, serialisation, parsing, the m/44'/coin'/account' helpers) proved equal to the BIP text for all seeds, parents, indexes and strings under group/hash laws (section hypotheses), with the guard 'stored parent key has 32 bytes' for hardened children and a refutation witness without it; tied to the code by running the extracted model and the real hdkeychain on seeds, paths to depth 6, constructed leading-zero parents, index boundaries and every single-byte corruption of serialised keys, with an independent BIP-32 implementation as second oracle.",
+    text="BIP-32 derivation (master key, CKDpriv/CKDpub, neuter, serialisation, parsing, the m/44'/coin'/account' helpers) proved equal to the BIP text for all seeds, parents, indexes and strings under group/hash laws (section hypotheses), with the guard 'stored parent key has 32 bytes' for hardened children and a refutation witness without it; tied to the code by running the extracted model and the real hdkeychain on seeds, paths to depth 6, constructed leading-zero parents, index boundaries and every single-byte corruption of serialised keys, with an independent BIP-32 implementation as second oracle. Key OBJECTS (shared byte slices, the memoised public key, Zero wiping in place) are modelled as a heap of buffers (Codec/Bip32Obj.v): no buffer is shared by two key objects in any reachable heap, Zero and every other operation on one object leave every other object unchanged, and for every script of derive/neuter/use/zero operations the observed key object equals the value model (witness for Neuter as found, which shared its slices); tied to the code by object-graph scripts (siblings, neutered copies, grandchildren, the parent zeroed around the observed key) run on real ExtendedKey objects and on the extracted heap model.",
     design_ref="DESIGN.md section 5, C14",
     note="Trusted: Coq kernel (no axioms; primitives are section variables under prim_laws), ExtrOcamlBasic + OCaml driver, Go harness incl. its independent reference (crypto/hmac, sha512, btcec, base58 as oracles recorded per case), verif export files. Known finding short-parent-hardened-child (not repaired); X>=P acceptance repaired (bc42b55).",
     technique="Coq proof (refinement of the code's byte-level algorithm to the BIP-32 specification, parametric in the primitives) + extracted-model differential correspondence with recorded primitive tables",
@@ -62,7 +62,7 @@ CHECKS["C12"] = dict(
 )
 CHECKS["C19"] = dict(
     category="proof",
-    text="PARTIAL. Coq model of the API validation prologues and of the look-up paths that index or dereference (constructTxIn, estimateSignedSize, signWitnessTx, findEligibleUtxos, selectRelatedTx, the current-keystore re-reads, the task queue, asyncImport's record handling, the index sites of filterTx/filterBlock) with explicit Panic outcomes: C19_no_panic for every request in every abstract wallet state for the repaired code, 14 refutation witnesses for the code as found, panic-only-at-unrepaired-sites, follower progress derived from the C01 history theorem. Tied to the code by (1) an inventory of compiler-unproven bounds checks and nil sources regenerated from the source on every run and compared with the pinned one the lemmas were written against, (2) ~4600 API requests in 10 wallet states + 140 deterministic removal-race schedules + 120 chain events with liveness probes per quick run under recover(), compared with the extracted model.",
+    text="PARTIAL. Coq model of the API validation prologues of 38 request kinds (every method of the wallet, transaction and block services except GetClientStatus) and of the look-up paths that index or dereference (constructTxIn, estimateSignedSize, signWitnessTx, findEligibleUtxos, selectRelatedTx, the current-keystore re-reads and cache look-ups, the task queue, asyncImport's record handling, the index sites of filterTx/filterBlock, GetBindingHistoryDetail, the block service's served transactions and reward outputs) with explicit Panic outcomes: C19_no_panic / C19_current_code_no_panic for every request in every abstract wallet state and node environment, refutation witnesses for the code as found (14 + GetBindingHistory behind a reorganisation + the evicted keystore cache), panic-only-at-unrepaired-sites, follower progress derived from the C01 history theorem. Tied to the code by (1) an inventory of compiler-unproven bounds checks and nil sources regenerated from the source on every run and compared with the pinned one the lemmas were written against, (2) ~6000 API requests (structured mostly-valid stream + malformed stream) in 12 wallet states incl. lagging behind a node reorganisation and after Stop + 140 deterministic removal-race schedules + 120 chain events with liveness probes per quick run under recover(), compared with the extracted model; the simulated node carries mass-core's real SyncManager (vault mode, no socket).",
     design_ref="DESIGN.md section 5, C19",
     note="Partial: everything behind the modelled path (fee arithmetic, output construction, signing, serialisation, keystore, database) is an oracle in the proof and covered by exploration only. Trusted: Coq kernel (no axioms), Go compiler's prove pass (bounds-check report), the go/ast translator and the reviewed pinned dispositions, ExtrOcamlBasic + driver, harness with DB gate, verif hooks; mass-core, goleveldb, grpc are environment. 12 panics repaired; known finding index-hint stall.",
     technique="Coq proof over a model with explicit Panic outcomes + source-derived inventory drift check + exploration of the real API under recover() with extracted-model correspondence",
@@ -111,7 +111,7 @@ CHECKS["C04"] = dict(
 )
 CHECKS["C05"] = dict(
     category="proof",
-    text="Symbolic (Dolev-Yao style) Coq proof that after any history of create/address/sign/refused attempts/export/imports/public-passphrase change/restart/remove no secret is derivable from every row ever written, every export, error and signature plus the public passphrases; the passphrase gate (sign, export, reveal, removal succeed exactly with the right passphrase) and the refusal frame (a refused attempt changes neither store nor unlock state nor caches) hold in every reachable state; witnesses for three repaired defects. Tied to the code by histories on real wallets after each step of which the raw LevelDB files, exported JSON and every error string are scanned for every secret in every encoding (raw, hex, base58 xprv, mnemonic windows, passphrases) and the stored record shapes are compared with the model.",
+    text="Symbolic (Dolev-Yao style) Coq proof that after any history of create/address/sign/refused attempts/export/imports/public-passphrase change/restart/remove no secret is derivable from every row ever written, every export, error and signature plus the public passphrases; the passphrase gate (sign, export, reveal, removal succeed exactly with the right passphrase) and the refusal frame (a refused attempt changes neither store nor unlock state nor caches) hold in every reachable state; witnesses for three repaired defects. Tied to the code by histories on real wallets after each step of which the raw LevelDB files, exported JSON and every error string are scanned for every secret in every encoding (raw, hex, base58 xprv, mnemonic windows, passphrases) and the stored record shapes are compared with the model. The KeystoreManager over several keystores (selection, SignHash resolution over all keystores, SignRawTx with its deferred ClearPrivKey and selection changes in between) is modelled in Keys/Manager.v: every list of wallet-level calls from fresh keystores leaves EVERY managed keystore locked and wiped, refusals frame, operations on one keystore leave the others unchanged; tied to the code by manager histories (2-3 wallets, UseWallet steered into SignRawTx through the DB wrapper) with the unlock state of every keystore observed after every step and predicted by the extracted model.",
     design_ref="DESIGN.md section 5, C05",
     note="Trusted: as C03. Symbolic model: curve relations and real cryptographic strength are outside the free algebra; random crypto keys unknown to the harness are covered by the proof only; zeroing of Go heap copies cannot be exhibited by any model. Three defects repaired (34102a8, a56f4eb, 30c1bd3).",
     technique="Coq proof (symbolic secrecy invariant over histories, gate and frame over reachable states) + raw-storage taint scan and record-shape correspondence",
